@@ -69,7 +69,11 @@ def holdsC09 (i : Info) (t : List Ev) : Bool :=
 Stop() on children of the new configuration that were never started; with children whose Stop
 waits for their Run (every bundled runnable) Run, Stop and Reload deadlock -/
 def knownC09F1 (i : Info) (t : List Ev) : Bool :=
-  i.hung && (List.range i.pool.length).any fun c =>
+  -- the deadlock leaves the composite in Reloading with a reload call that never returned
+  i.hung && i.final == "Reloading"
+  && (t.filter fun e => match e with | .reloadCall _ => true | _ => false).length
+      > (t.filter fun e => match e with | .reloadRet _ _ => true | _ => false).length
+  && (List.range i.pool.length).any fun c =>
     ((i.pool[c]?).map (·.lifecycleStop)).getD false
     && (t.filter (· == .stopInv c)).length > (t.filter (· == .stopRet c)).length
     && !(runningAfter t).contains c
